@@ -97,7 +97,7 @@ def provisionResources (cl : Cluster) (partitions minPer : Nat)
     match maxResourceProvision cl partitions split o with
     | .error e => .error e
     | .ok provision =>
-      if provision < minPer then .ok (cl, false)
+      if provision < 1 ∨ provision < minPer then .ok (cl, false)   -- F12: at least one machine
       else
         match cl.provisionBatch provision o with
         | (_, some e) => .error e
